@@ -29,6 +29,8 @@ use crate::metrics::MetricsCollector;
 
 /// WAL magic number (identifies valid WAL files)
 const WAL_MAGIC: u32 = 0x57414C00; // "WAL\0"
+/// Length of the header (magic) a freshly created WAL segment holds before its first entry.
+pub const WAL_HEADER_LEN: u64 = 4;
 /// Upper bound for a single serialized WAL entry to avoid OOM on corrupted sizes.
 const MAX_WAL_ENTRY_BYTES: usize = 100 * 1024 * 1024; // 100 MiB
 
